@@ -56,4 +56,11 @@ META = {
             "note": "Minimiser claim only for freshly constructed strategies and ptol, ftol <= 1e-6 (a radius inherited from an unrelated solve can stop "
                     "the iteration early with Ptol; judged outside the statement, see DESIGN.md). Cost re-evaluated in double with the same functor.",
             "technique": "runtime monitoring: history checker over callback events + independent minimisers (long-double normal equations, generating transform), ASan/UBSan"},
+    "C08": {"text": "Exploration: diff::dr<0|1|2, Numerical|Analytic|Default> on a function family whose value, Jacobian and Hessian are recomputed "
+                    "from the documented matrix groups in long double (4th-order central differences with right perturbations), over argument kinds "
+                    "(group, vector, scalar, std::vector<G>, Bundle; const and non-const references), all index subsets incl. unsorted, and a counting "
+                    "callable for the verbatim/called-once contract; arguments are snapshotted before/after every call (1e-15 bound).",
+            "note": "Exact derivatives come from extended-precision finite differences of an oracle re-implementation of each function; statement tolerances "
+                    "(1e-4, 5e-2, 1e-15) verbatim, with derivatives smaller than 1 judged absolutely (the statement speaks of O(1) derivatives).",
+            "technique": "runtime monitoring: reference-model oracle (extended-precision differentiation) + argument snapshots + call counters, ASan/UBSan"},
 }
